@@ -225,7 +225,7 @@ def _history(tape, ctx, case, rig, probes, faults, allow_cancel):
     batches = _draw_batches(tape, case) if case.has_transform else [list(case.train_ids)]
     is_gen = getattr(case, "input_method", None) == "generator"
     supports_io = isinstance(case, A.WassersteinCase) and case.which not in ("ApproxW", "W-heuristic")
-    supports_invalid = isinstance(case, A.WassersteinCase) and case.which not in ("ApproxW",)
+    supports_invalid = (isinstance(case, A.WassersteinCase) and case.which not in ("ApproxW",)) or case.supports_invalid_doc
     ops_log = []
     desc["ops"] = ops_log
     n_ops = tape.between("h.n_ops", 3, 8)
@@ -296,7 +296,8 @@ def _history(tape, ctx, case, rig, probes, faults, allow_cancel):
             return ("reader", (how, j, which), None, f"reader:{how}@{j}:{which}")
         if k == "data":
             j = n_items // 2 + tape.draw("f.data_at", max(1, n_items - n_items // 2))
-            kind = tape.choice("f.data_kind", ["nan", "negative", "shape-or-zero"])
+            kind = tape.choice("f.data_kind", ["nan", "negative", "shape-or-zero"]) if not case.supports_invalid_doc \
+                else tape.choice("f.doc_kind", ["other-type", "unhashable"])
             return ("data", j, kind, f"data:{kind}@{j}")
         at = tape.draw("f.cancel_at", info["lines"])
         return ("cancel", at, None, f"cancel@{at}")
